@@ -68,6 +68,7 @@ class ProgGen(object):
         self.buf_len = 0
         self.nargs = 0
         self.sym_fams = []
+        self.buf_written = set()
 
     # ---- helpers
     def k(self, name):
@@ -144,6 +145,16 @@ class ProgGen(object):
     def bp(self):
         return regname("BP", self.bits)
 
+    def buf_off(self, size):
+        """offset of a @size-bit access inside the buffer; after a store to the buffer, mostly
+        an offset that overlaps a stored byte (read-after-write through the symbolized area)"""
+        hi = self.buf_len - size // 8
+        if self.buf_written and self.rng.random() < 0.7:
+            w = self.rng.choice(sorted(self.buf_written))
+            lo = max(0, w - size // 8 + 1)
+            return self.rng.randrange(lo, min(w, hi) + 1) if lo <= min(w, hi) else min(w, hi)
+        return self.rng.randrange(0, hi + 1)
+
     # ---- input prologue
     def prologue(self):
         rng = self.rng
@@ -172,7 +183,7 @@ class ProgGen(object):
         size = rng.choice(sizes)
         if size // 8 > self.buf_len:
             size = 8
-        off = rng.randrange(0, self.buf_len - size // 8 + 1)
+        off = self.buf_off(size)
         mem = "%s PTR [%s+0x%x]" % (PTRNAME[size], self.ptr(), off)
         if size in (8, 16) and (fam not in BYTE_FAMS or rng.random() < 0.8):
             op = rng.choice(["MOVZX", "MOVZX", "MOVSX"])
@@ -182,7 +193,7 @@ class ProgGen(object):
         else:
             if size == 8 and fam not in BYTE_FAMS:
                 size = 32 if self.buf_len >= 4 else 16
-                off = rng.randrange(0, self.buf_len - size // 8 + 1)
+                off = self.buf_off(size)
                 mem = "%s PTR [%s+0x%x]" % (PTRNAME[size], self.ptr(), off)
             self.emit("MOV %s, %s" % (regname(fam, size), mem))
             self.k("load:mov%d" % size)
@@ -198,7 +209,7 @@ class ProgGen(object):
         if self.mode == "mem":
             kinds.append(("bufread", 5))
             if self.bufwrite:
-                kinds.append(("bufwrite", 4))
+                kinds.append(("bufwrite", 7))
         total = sum(w for _, w in kinds)
         r = rng.random() * total
         for name, w in kinds:
@@ -420,6 +431,7 @@ class ProgGen(object):
             size = 8
         off = self.rng.randrange(0, self.buf_len - size // 8 + 1)
         mem = "%s PTR [%s+0x%x]" % (PTRNAME[size], self.ptr(), off)
+        self.buf_written.update(range(off, off + size // 8))
         r = self.rng.random()
         if r < 0.4:
             s = self.pick_src(size)
@@ -434,6 +446,14 @@ class ProgGen(object):
             op = self.rng.choice(["XOR", "ADD", "SUB"])
             self.emit("%s %s, %s" % (op, mem, self.rn(s, size)))
             self.k("bufwrite:rmw_reg")
+        if self.branches_left > 0 and self.rng.random() < 0.5:
+            # read the stored bytes back and branch on them
+            self.branches_left -= 1
+            skip = self.label()
+            self.cond(skip, force_mem=True)
+            self.s_alu_imm()
+            self.emit_label(skip)
+            self.k("struct:readback_if")
 
     def s_div(self):
         if "A" in self.reserved or "D" in self.reserved:
@@ -512,16 +532,16 @@ class ProgGen(object):
         self.k("rcl")
 
     # ---- conditions
-    def cond(self, target, allow_parity=True):
+    def cond(self, target, allow_parity=True, force_mem=False):
         """emit a flag-setting sequence and a conditional jump to @target"""
         rng = self.rng
         r = rng.random()
         ccs = CONDS if allow_parity else [c for c in CONDS if c not in ("PE", "NP")]
-        if self.mode == "mem" and r < 0.15:
+        if self.mode == "mem" and (force_mem or r < (0.3 if self.buf_written else 0.15)):
             size = rng.choice([8, 8, 16, 32])
             if size // 8 > self.buf_len:
                 size = 8
-            off = rng.randrange(0, self.buf_len - size // 8 + 1)
+            off = self.buf_off(size)
             mem = "%s PTR [%s+0x%x]" % (PTRNAME[size], self.ptr(), off)
             op = rng.choice(["CMP", "CMP", "TEST"])
             self.emit("%s %s, 0x%x" % (op, mem, self.imm(size) if op == "CMP" else (self.imm(size) | 1)))
@@ -591,6 +611,8 @@ class ProgGen(object):
         rng = self.rng
         for _ in range(rng.choice([1, 1, 2, 3])):
             self.stmt()
+        if self.bufwrite and self.mode == "mem" and depth == 0 and not self.buf_written:
+            self.s_bufwrite()       # a program of this class stores into its input buffer at least once
         nstruct = rng.choice([1, 1, 2]) if depth == 0 else rng.choice([0, 1, 1])
         for _ in range(nstruct):
             if self.branches_left <= 0:
